@@ -201,20 +201,30 @@ def check_script(acc_, cfg, runner):
 
 
 def check_maxiter(acc_, cfg, runner):
-    L, gk, ek, diverge, n, m = cfg
+    L, gk, ek, diverge, n, m = cfg[:6]
+    entry = len(cfg) > 6 and cfg[6]
     limit = 10**6 if diverge else n * L
     prog = loop_program(L, gk, ek, "state", False, limit=limit)
+    if entry:
+        # an upstream node that is runnable on its own (defaulted input) but excluded by the entry point:
+        # it must neither run nor count as 'still ready' when the cap is reached
+        prog["nodes"][0]["params"] = ["x0", "aux"]
+        prog["nodes"].append(T.fn("pre", ["seed"], ["aux"], defaults={"seed": 0}, behav={"py": "('aux', seed)"}))
+        prog["entry"] = ["b1"]
     p = T.set_async(prog, runner == "async")
     big = 60
-    xr = execute(p, {"x0": 0}, runner=runner, h=H(), error_handling="continue", max_iterations=big)
+    ins0 = {"x0": 0, "aux": ["given", "aux"]} if entry else {"x0": 0}
+    xr = execute(p, ins0, runner=runner, h=H(), error_handling="continue", max_iterations=big)
     traj = [t for t in xr.h.steps if t.depth == 0]
     S = len(traj)
     outs = None
     w = {"kind": "maxiter", "cfg": list(cfg), "runner": runner, "program": prog}
     for eh in ("raise", "continue"):
-        x = execute(p, {"x0": 0}, runner=runner, h=H(), error_handling=eh, max_iterations=m)
+        x = execute(p, ins0, runner=runner, h=H(), error_handling=eh, max_iterations=m)
         acc_.evaluations += 1
         acc_.traces += 1
+        if entry and any(c.nid == "pre" for c in x.h.calls):
+            acc_.violation({"symptom": "node-outside-entry-scope-ran"}, {**w, "eh": eh}, "the upstream node excluded by the entry point ran")
         steps = [t for t in x.h.steps if t.depth == 0]
         acc_.transitions += len(steps)
         for t in steps:
@@ -273,6 +283,39 @@ def check_two_accumulators(acc_, N, runner):
         acc_.violation({"symptom": "iteration-count", "which": "accumulator", "sync": "two-accumulators", "entry_mid_body": False}, w, f"two-accumulator loop N={N}: counts {got} expected {exp_counts}; log {jsonable(x.result.values.get('log'))} expected {jsonable(exp_log)}")
 
 
+def check_cached_signal_loop(acc_, N, runner):
+    """The signal-synchronised loop with every function node cached, run twice on one cache: the warm run must
+    iterate exactly like the cold one (a cached emitter still produces its signal)."""
+    from hypergraph.cache import InMemoryCache
+
+    prog = T.prog(
+        [
+            T.fn("inc", ["count"], ["count"], behav={"py": "count + 1"}),
+            T.fn("fin", ["count"], ["out"], emit=["done"], cache=True, behav={"py": "('out', count)"}),
+            T.route("chk", ["count"], ["inc", "END"], wait_for=["done"], behav={"py": f"'inc' if count < {N} else END"}),
+        ]
+    )
+    p = T.set_async(prog, False)
+    cache = InMemoryCache()
+    views = []
+    for round_ in (0, 1):
+        h = H()
+        x = execute(p, {"count": 0}, runner=runner, h=h, cache=cache, error_handling="continue", max_iterations=40 + 10 * N)
+        acc_.evaluations += 1
+        acc_.traces += 1
+        acc_.transitions += len(h.steps)
+        for t in h.steps:
+            acc_.states.add(hk(("cached-signal-loop", N, round_, t.step)))
+        counts = _observe(x)
+        views.append((x.status, None if x.result is None else dict(x.result.values), counts.get("inc", 0), counts.get("chk", 0)))
+    w = {"kind": "cached-signal-loop", "cfg": [N], "runner": runner, "program": prog}
+    cold, warm = views
+    if cold[0] != "completed" or cold[1].get("count") != max(N, 0) and cold[1].get("count") != N:
+        pass
+    if warm[:2] != cold[:2] or warm[2] != cold[2] or warm[3] != cold[3]:
+        acc_.violation({"symptom": "iteration-count", "which": "body", "sync": "cached-signal-loop", "entry_mid_body": False}, w, f"signal-synchronised loop with a cached emitter, N={N}: warm run (status, values, body runs, gate runs) = {jsonable(warm)} but the cold run gave {jsonable(cold)}")
+
+
 def _det_cfgs(tier):
     N = 3 if tier == "quick" else 6
     for L in (1, 2, 3):
@@ -311,6 +354,8 @@ def _maxiter_cfgs(tier):
                     for n in ((2,) if diverge else (0, 1, 2, 3)):
                         for m in range(1, M + 1):
                             yield (L, gk, ek, diverge, n, m)
+                            if L == 1 and ek == "END" and not diverge:
+                                yield (L, gk, ek, diverge, n, m, True)
 
 
 def shards(tier, seed):
@@ -325,6 +370,8 @@ def run_shard(shard):
             for runner in ("sync", "async"):
                 acc.key(("acc2", N, runner))
                 check_two_accumulators(acc, N, runner)
+                acc.key(("cached-signal-loop", N, runner))
+                check_cached_signal_loop(acc, N, runner)
     gen, fn = {"det": (_det_cfgs, check_det), "script": (_script_cfgs, check_script), "maxiter": (_maxiter_cfgs, check_maxiter)}[part]
     for i, cfg in enumerate(gen(tier)):
         if i % k != s:
@@ -345,7 +392,9 @@ def coverage_extra(acc, tier, seed):
 def replay(rep):
     acc = Acc()
     cfg = rep["cfg"]
-    if rep["kind"] == "acc2":
+    if rep["kind"] == "cached-signal-loop":
+        check_cached_signal_loop(acc, cfg[0], rep["runner"])
+    elif rep["kind"] == "acc2":
         check_two_accumulators(acc, cfg[0], rep["runner"])
     elif rep["kind"] == "det":
         check_det(acc, tuple(cfg), rep["runner"])
